@@ -7,6 +7,7 @@ import (
 	"net/http"
 	"net/http/httptest"
 	"net/url"
+	"sort"
 	"strings"
 	"time"
 
@@ -57,10 +58,94 @@ type c07Cfg struct {
 	signReq   bool
 	idpMethod string
 	idpKey    string
+	// the SP's names: an entity ID / metadata URL of another lexical shape (trailing slash, query, URN, upper-case host, port), "" = the usual
+	spName string
+	// the metadata registered at the IdP carries an AttributeConsumingService asking for every attribute name the IdP knows how to fill
+	reqAttrs bool
 }
 
 func (c c07Cfg) String() string {
-	return fmt.Sprintf("enc=%v/entity=%v/spkey=%s/binding=%s/signreq=%v/idp=%s:%s", c.enc, c.entitySet, c.spKey, c.binding, c.signReq, c.idpKey, shortAlg(c.idpMethod))
+	s := fmt.Sprintf("enc=%v/entity=%v/spkey=%s/binding=%s/signreq=%v/idp=%s:%s", c.enc, c.entitySet, c.spKey, c.binding, c.signReq, c.idpKey, shortAlg(c.idpMethod))
+	if c.spName != "" {
+		s += "/spname=" + c.spName
+	}
+	if c.reqAttrs {
+		s += "/requested-attributes"
+	}
+	return s
+}
+
+// c07SPNames: entity ID and metadata URL per lexical shape.
+var c07SPNames = map[string][2]string{
+	"trailing-slash":  {"https://sp.example.com/", "https://sp.example.com/saml/"},
+	"path-slash":      {"https://sp.example.com/saml2/", "https://sp.example.com/saml2/metadata/"},
+	"query":           {"https://sp.example.com/entity?tenant=a&x=%2F", "https://sp.example.com/saml/metadata?tenant=a"},
+	"urn":             {"urn:example:sp:one", "https://sp.example.com/saml/metadata"},
+	"upper-host+port": {"https://SP.Example.COM:8443/Entity", "https://SP.Example.COM:8443/saml/metadata"},
+	"fragment+blank":  {"https://sp.example.com/entity#frag ment", "https://sp.example.com/saml/metadata#x"},
+	"non-ascii":       {"https://sp.example.com/entité/", "https://sp.example.com/méta/"},
+}
+
+// c07Requested: requested attribute names (basic / unspecified name formats) the IdP fills from the session, and the field each stands for.
+var c07Requested = []struct {
+	name, format string
+	field        func(*saml.Session) string
+}{
+	{"email", "basic", func(s *saml.Session) string { return s.UserEmail }}, {"email_address", "unspecified", func(s *saml.Session) string { return s.UserEmail }},
+	{"name", "basic", func(s *saml.Session) string { return s.UserCommonName }}, {"full-name", "basic", func(s *saml.Session) string { return s.UserCommonName }}, {"cn", "unspecified", func(s *saml.Session) string { return s.UserCommonName }},
+	{"given_name", "basic", func(s *saml.Session) string { return s.UserGivenName }}, {"first_name", "unspecified", func(s *saml.Session) string { return s.UserGivenName }},
+	{"surname", "basic", func(s *saml.Session) string { return s.UserSurname }}, {"last_name", "basic", func(s *saml.Session) string { return s.UserSurname }}, {"family-name", "unspecified", func(s *saml.Session) string { return s.UserSurname }},
+	{"uid", "basic", func(s *saml.Session) string { return s.UserName }}, {"user", "unspecified", func(s *saml.Session) string { return s.UserName }}, {"user_id", "basic", func(s *saml.Session) string { return s.UserName }},
+}
+
+// c07WellKnown: attribute names with a fixed meaning and the session field that meaning is.
+var c07WellKnown = map[string]func(*saml.Session) []string{
+	"urn:oid:0.9.2342.19200300.100.1.1": func(s *saml.Session) []string { return []string{s.UserName} },
+	"urn:oid:0.9.2342.19200300.100.1.3": func(s *saml.Session) []string { return []string{s.UserEmail} },
+	"urn:oid:1.3.6.1.4.1.5923.1.1.1.6": func(s *saml.Session) []string {
+		if s.EduPersonPrincipalName != "" {
+			return []string{s.EduPersonPrincipalName}
+		}
+		return []string{s.UserEmail} // the documented legacy fallback
+	},
+	"urn:oid:2.5.4.4":                              func(s *saml.Session) []string { return []string{s.UserSurname} },
+	"urn:oid:2.5.4.42":                             func(s *saml.Session) []string { return []string{s.UserGivenName} },
+	"urn:oid:2.5.4.3":                              func(s *saml.Session) []string { return []string{s.UserCommonName} },
+	"urn:oid:1.3.6.1.4.1.5923.1.1.1.9":             func(s *saml.Session) []string { return []string{s.UserScopedAffiliation} },
+	"urn:oid:1.3.6.1.4.1.5923.1.1.1.1":             func(s *saml.Session) []string { return s.Groups },
+	"urn:oasis:names:tc:SAML:attribute:subject-id": func(s *saml.Session) []string { return []string{s.SubjectID} },
+}
+
+// attrMeaning reports attributes whose name has a fixed meaning but whose values are not that field of the session (a value of another
+// field, or of no field at all, under that name). names of requested attributes are matched as the IdP normalises them.
+func attrMeaning(attrs []saml.Attribute, sess *saml.Session) []string {
+	var out []string
+	vals := func(a saml.Attribute) []string {
+		var v []string
+		for _, x := range a.Values {
+			v = append(v, x.Value)
+		}
+		return v
+	}
+	for _, a := range attrs {
+		var want []string
+		if f, ok := c07WellKnown[a.Name]; ok && a.NameFormat == "urn:oasis:names:tc:SAML:2.0:attrname-format:uri" {
+			want = f(sess)
+		} else {
+			for _, r := range c07Requested {
+				if r.name == a.Name && strings.HasSuffix(a.NameFormat, ":"+r.format) {
+					want = []string{r.field(sess)}
+				}
+			}
+		}
+		if want == nil {
+			continue
+		}
+		if got := vals(a); strings.Join(got, "\x00") != strings.Join(want, "\x00") {
+			out = append(out, fmt.Sprintf("attribute %q (%s) carries %+q, the session's value for it is %+q", a.Name, a.FriendlyName, got, want))
+		}
+	}
+	return out
 }
 
 type c07World struct {
@@ -92,6 +177,10 @@ func newWorld(cf c07Cfg) *c07World {
 	skp := samlgen.Key(cf.spKey)
 	sp := &saml.ServiceProvider{EntityID: samlgen.SPEntity, Key: skp.Key, Certificate: skp.Cert, MetadataURL: harness.MustURL(samlgen.SPMetaURL), AcsURL: harness.MustURL(samlgen.SPAcs),
 		SloURL: harness.MustURL(samlgen.SPSlo), IDPMetadata: &idpMD}
+	if cf.spName != "" {
+		n := c07SPNames[cf.spName]
+		sp.EntityID, sp.MetadataURL = n[0], harness.MustURL(n[1])
+	}
 	if !cf.entitySet {
 		sp.EntityID = ""
 	}
@@ -115,6 +204,14 @@ func newWorld(cf c07Cfg) *c07World {
 	if err := xml.Unmarshal(sb, &spMD); err != nil {
 		w.err = fmt.Errorf("SP metadata does not re-parse: %w", err)
 		return w
+	}
+	if cf.reqAttrs && len(spMD.SPSSODescriptors) > 0 {
+		tr := true
+		acs := saml.AttributeConsumingService{Index: 1, IsDefault: &tr, ServiceNames: []saml.LocalizedName{{Lang: "en", Value: "sp"}}}
+		for _, r := range c07Requested {
+			acs.RequestedAttributes = append(acs.RequestedAttributes, saml.RequestedAttribute{Attribute: saml.Attribute{Name: r.name, FriendlyName: "requested-" + r.name, NameFormat: "urn:oasis:names:tc:SAML:2.0:attrname-format:" + r.format}})
+		}
+		spMD.SPSSODescriptors[0].AttributeConsumingServices = []saml.AttributeConsumingService{acs}
 	}
 	idp.ServiceProviderProvider = harness.SPRegistry{spMD.EntityID: &spMD}
 	w.sp, w.idp = sp, idp
@@ -284,6 +381,24 @@ func runC07(c *core.Ctx) {
 		if strings.Join(sl, "\n") != strings.Join(gl, "\n") {
 			fk := "C07/attributes-altered" + crClass(pos)
 			t.Fail(fk, "attributes differ after the round trip (%s):\nsent %q\ngot  %q", cf, sl, gl)
+		}
+		var gotAttrs []saml.Attribute
+		for _, st := range got.AttributeStatements {
+			gotAttrs = append(gotAttrs, st.Attributes...)
+		}
+		for _, bad := range attrMeaning(gotAttrs, sess) {
+			t.Fail("C07/attribute-states-another-value"+crClass(pos), "%s (%s)", bad, cf)
+		}
+		if cf.reqAttrs {
+			names := map[string]bool{}
+			for _, a := range gotAttrs {
+				names[a.Name] = true
+			}
+			for _, r := range c07Requested {
+				if !names[r.name] {
+					t.Fail("C07/requested-attribute-not-delivered", "requested attribute %q did not arrive (%s)", r.name, cf)
+				}
+			}
 		}
 		if len(got.AuthnStatements) != 1 || got.AuthnStatements[0].SessionIndex != sess.Index {
 			fk := "C07/session-index-altered" + crClass(pos)
@@ -529,11 +644,31 @@ func runC07(c *core.Ctx) {
 				for _, b := range []string{"redirect", "post"} {
 					for _, sr := range []bool{false, true} {
 						for _, im := range []struct{ k, m string }{{"idp1", ""}, {"idp1", dsig.RSASHA256SignatureMethod}, {"idp1", dsig.RSASHA512SignatureMethod}, {"idpec", dsig.ECDSASHA256SignatureMethod}, {"idpec", dsig.ECDSASHA384SignatureMethod}} {
-							cfgs = append(cfgs, c07Cfg{enc, es, sk, b, sr, im.m, im.k})
+							cfgs = append(cfgs, c07Cfg{enc: enc, entitySet: es, spKey: sk, binding: b, signReq: sr, idpMethod: im.m, idpKey: im.k})
 						}
 					}
 				}
 			}
+		}
+	}
+	// the SP's names in other lexical shapes, and an SP that asks for attributes by name
+	var spNames []string
+	for n := range c07SPNames {
+		spNames = append(spNames, n)
+	}
+	sort.Strings(spNames)
+	for _, n := range spNames {
+		for _, es := range []bool{true, false} {
+			for _, enc := range []bool{false, true} {
+				for _, b := range []string{"redirect", "post"} {
+					cfgs = append(cfgs, c07Cfg{enc: enc, entitySet: es, spKey: "sp2048", binding: b, idpKey: "idp1", spName: n})
+				}
+			}
+		}
+	}
+	for _, enc := range []bool{false, true} {
+		for _, b := range []string{"redirect", "post"} {
+			cfgs = append(cfgs, c07Cfg{enc: enc, entitySet: true, spKey: "sp2048", binding: b, idpKey: "idp1", reqAttrs: true}, c07Cfg{enc: enc, entitySet: false, spKey: "spec256", binding: b, idpKey: "idpec", idpMethod: dsig.ECDSASHA256SignatureMethod, reqAttrs: true, spName: "trailing-slash"})
 		}
 	}
 	probes := []map[int]string{{}, {0: "a&b<c>\"d'", 8: " lead and trail ", 7: "\n"}, {0: "\U0001F600é", 3: "]]><!--", 9: "urn:x:&<>"}}
